@@ -118,6 +118,20 @@ Section Ext.
   Definition listed_all (acc : list (Z * chunk)) : list (Z * Z) :=
     map (fun nc => (fst nc, fst (snd nc))) acc.
 
+  (* handleHTTPProduce after a successful UploadStream: checksum comparison, envelope, produce *)
+  Definition produce_finish (key : Z) (pieces : blob) (csum : bytes) (alg : Z) (r : reply) (w2 : world)
+    : world * response :=
+    let sum := checksum_of alg pieces in
+    if nonempty csum && nonempty sum && negb (bytes_eqb csum sum) then
+      (mkWorld (w_sess w2) (w_s3open w2) (w_s3parts w2) (del_obj key (w_objects w2)) (w_nextkey w2), fail 400)
+    else
+      let env := mkEnv key (bsize pieces) (hashf 0 pieces) sum in
+      let st := broker_status r in
+      (w2, if st =? 200 then mkResp 200 (Some env) else fail st).
+
+  Definition put_obj (w : world) (key : Z) (obj : blob) : world :=
+    mkWorld (w_sess w) (w_s3open w) (w_s3parts w) ((key, obj) :: w_objects w) (w_nextkey w).
+
   (* handleHTTPProduce from UploadStream on *)
   Definition do_produce (cfg : config) (w : world) (pieces : blob) (csum : bytes) (alg : Z)
       (faults : list bool) (r : reply) : world * response :=
@@ -128,31 +142,20 @@ Section Ext.
     | first :: rest =>
       let key := w_nextkey w in
       let w1 := mkWorld (w_sess w) (w_s3open w) (w_s3parts w) (w_objects w) (key + 1) in
-      let finish (w2 : world) : world * response :=
-        let sum := checksum_of alg pieces in
-        if nonempty csum && nonempty sum && negb (bytes_eqb csum sum) then
-          (mkWorld (w_sess w2) (w_s3open w2) (w_s3parts w2) (del_obj key (w_objects w2)) (w_nextkey w2), fail 400)
-        else
-          let env := mkEnv key (bsize pieces) (hashf 0 pieces) sum in
-          let st := broker_status r in
-          (w2, if st =? 200 then mkResp 200 (Some env) else fail st) in
       let use_put := match rest with [] => snd first <? c_min_part cfg | _ => false end in
       if use_put then
         (* PutObject *)
-        let '(f, _) := next_fault faults in
-        if f then (w1, fail 502)
-        else finish (mkWorld (w_sess w1) (w_s3open w1) (w_s3parts w1) ((key, pieces) :: w_objects w1) (w_nextkey w1))
+        if fst (next_fault faults) then (w1, fail 502)
+        else produce_finish key pieces csum alg r (put_obj w1 key pieces)
       else
         (* CreateMultipartUpload, UploadPart per piece, CompleteMultipartUpload *)
-        let '(f0, fs0) := next_fault faults in
-        if f0 then (w1, fail 502) else
-        let '(st, fs1, acc) := stream_parts cfg pieces 1 0 fs0 [] in
+        if fst (next_fault faults) then (w1, fail 502) else
+        let '(st, fs1, acc) := stream_parts cfg pieces 1 0 (snd (next_fault faults)) [] in
         if negb (st =? 200) then (w1, fail st) else
-        let '(f2, _) := next_fault fs1 in
-        if f2 then (w1, fail 502) else
+        if fst (next_fault fs1) then (w1, fail 502) else
         match assemble acc 0 (listed_all acc) with
         | None => (w1, fail 502)
-        | Some obj => finish (mkWorld (w_sess w1) (w_s3open w1) (w_s3parts w1) ((key, obj) :: w_objects w1) (w_nextkey w1))
+        | Some obj => produce_finish key pieces csum alg r (put_obj w1 key obj)
         end
     end.
 
